@@ -3,18 +3,20 @@
 src="$1"; mode="$2"
 out="$src/matrix.tsv"; : > "$out"
 for d in "$src"/C*/; do
-  id=$(basename "$d")
-  for k in 1 2 3; do
+  id=$(basename "$d" | cut -c1-3)
+  for k in 1 2 3 4 5; do
     p="$d/patch$k.diff"; [ -f "$d/patch$k.rebased.diff" ] && p="$d/patch$k.rebased.diff"
-    [ -f "$p" ] || continue
-    git -C /repo apply "$p" || { printf "%s\t%s\tDOES-NOT-APPLY\n" "$id" "$k" >> "$out"; continue; }
+    [ -f "$p" ] || { [ -f "$d/patch.diff" ] && [ $k = 1 ] && p="$d/patch.diff" || continue; }
+    git -C /repo apply "$p" || { printf "%s\t%s\tDOES-NOT-APPLY\n" "$(basename $d)" "$k" >> "$out"; continue; }
     if [ "$mode" = all ]; then
       res=$(for c in $(seq -w 1 20); do ( /verif/check C$c --tier quick >/tmp/sm_$c.log 2>&1; echo "C$c:$?" ) & done; wait)
       fired=$(echo "$res" | tr ' ' '\n' | grep -v ':0$' | sort | tr '\n' ' ')
+      first=""
     else
       /verif/check "$id" --tier quick >/tmp/sm_own.log 2>&1; fired="$id:$?"
+      first=$(grep -h -m1 -E "finding|ANALYSIS-ERROR" /tmp/sm_own.log | cut -c1-170)
     fi
-    printf "%s\t%s\t%s\n" "$id" "$k" "$fired" >> "$out"
+    printf "%s\t%s\t%s\t%s\n" "$(basename $d)" "$k" "$fired" "$first" >> "$out"
     git -C /repo checkout -- .
   done
 done
